@@ -402,7 +402,7 @@ func checkHistory(ctx *pbt.Ctx, c HistCase) error {
 				return herr
 			}
 			jc := ctx
-			if i == 0 {
+			if prevKind == "start" {
 				jc = &pbt.Ctx{} // nothing precedes: this is the "change" sub-check's own case
 			}
 			if err := judge(jc, cc, before, tx, opErr, addr); err != nil {
